@@ -1,5 +1,6 @@
 import Proofs.StorageConc
 import Proofs.StorageChecker
+import Proofs.StorageAliasSim
 
 /-!
 # C13 — storage keeps what it was given: unique ids, read-your-writes, isolation
@@ -292,6 +293,122 @@ theorem C13_model_passes_checker (ops : List Op) (hin : InScope ops) :
       rw [← abs_step s w op hop]
       exact ih _ (WF_step w op) (fun o ho => hin o (List.mem_cons_of_mem _ ho))
   exact key ops Store.init WF_init hin
+
+/-! ## object identities: what the caller does with loaded data does not matter
+
+`Model/StorageAlias.lean`: the job table as a forest of Python objects (every dict / list carries its identity);
+`store_job` keeps the object it is given, `store_job_metadata` changes a dict in place, `load_jobs` returns the live
+dicts, `load_job` / `load_search` return `copy.deepcopy`; an in-place change of an object is seen through every
+reference to it (`World.editAll`), the caller's edits included (`AOp.callerEdit`).  The discipline `AOp.ok`: the caller
+gives the storage no object that is already in it (or that contains an object twice), and edits in place only objects
+the storage does not hold. -/
+
+/-- **C13 (loaded data is the caller's alone, `load_job`)** — after any history that kept the discipline, the tree
+`load_job` returns consists of new objects only.  Hence (1) any part of it may be handed back to the storage (as the value
+of any job's key or metadata key) and (2) any container in it may be edited in place, within the discipline; and (3) that
+remains so after whatever calls and edits follow, as long as the object itself is not passed to the storage. -/
+theorem C13_load_job_private (ops : List AOp) (hok : OkRun World.init ops) (jid : String) (c : RVal)
+    (hload : (astep (arun World.init ops).1 (.loadJob jid)).2 = .val c) :
+    let W1 := (astep (arun World.init ops).1 (.loadJob jid)).1
+    (∀ (p : List String) (x : RVal) (j k : String), c.sub p = some x →
+      (AOp.storeJob j k x).ok W1 ∧ (AOp.storeMeta j k x).ok W1) ∧
+    (∀ a ∈ c.addrs, ∀ e, (AOp.callerEdit a e).ok W1) ∧
+    (∀ a ∈ c.addrs, ∀ more : List AOp, (∀ op ∈ more, a ∉ op.passes) → ∀ e, (AOp.callerEdit a e).ok (arun W1 more).1) := by
+  have hW := (alias_run ops World.init Inv_init hok).1
+  obtain ⟨hn, hf⟩ := loadJob_fresh _ hW jid c hload
+  exact fresh_private _ c hn (fun a ha => ⟨(hf a ha).1, (hf a ha).2.2⟩)
+
+/-- **C13 (loaded data is the caller's alone, `load_search`)** — the same for the deep copy of the whole table. -/
+theorem C13_load_search_private (ops : List AOp) (hok : OkRun World.init ops) (c : RVal)
+    (hload : (astep (arun World.init ops).1 .loadAll).2 = .val c) :
+    let W1 := (astep (arun World.init ops).1 .loadAll).1
+    (∀ (p : List String) (x : RVal) (j k : String), c.sub p = some x →
+      (AOp.storeJob j k x).ok W1 ∧ (AOp.storeMeta j k x).ok W1) ∧
+    (∀ a ∈ c.addrs, ∀ e, (AOp.callerEdit a e).ok W1) ∧
+    (∀ a ∈ c.addrs, ∀ more : List AOp, (∀ op ∈ more, a ∉ op.passes) → ∀ e, (AOp.callerEdit a e).ok (arun W1 more).1) := by
+  have hW := (alias_run ops World.init Inv_init hok).1
+  obtain ⟨hn, hf⟩ := loadAll_fresh _ hW c hload
+  exact fresh_private _ c hn (fun a ha => ⟨(hf a ha).1, (hf a ha).2.2⟩)
+
+/-- **C13 (the caller's edits are invisible; a write reaches one job only)** — every history of calls, hand-backs and
+in-place edits that keeps the discipline: the values in the job table and every answer (identities forgotten) are those
+of the model over VALUES run on the same operations — in which `job[key] = v` changes that job's record only and a
+caller's edit is no operation at all: the answers to the storage calls are exactly those the calls alone would get. -/
+theorem C13_caller_edits_invisible (ops : List AOp) (hok : OkRun World.init ops) :
+    let r := arun World.init ops
+    RVal.eraseKV r.1.jobs = (prun [] ops).1 ∧
+    r.2.map AOut.erase = (prun [] ops).2 ∧
+    (prun [] ops).1 = (prun [] (ops.filter AOp.isCall)).1 ∧
+    callOuts ops (r.2.map AOut.erase) = (prun [] (ops.filter AOp.isCall)).2 := by
+  obtain ⟨_, h2, h3⟩ := alias_run ops World.init Inv_init hok
+  obtain ⟨e1, e2⟩ := prun_ignores_edits ops []
+  refine ⟨h2, h3, e1, ?_⟩
+  rw [h3]; exact e2
+
+/-- one call, from any world with the invariant (the general step behind the two theorems above) -/
+theorem C13_alias_step (W : World) (hW : Inv W) (op : AOp) (hok : op.ok W) :
+    Inv (astep W op).1 ∧
+    RVal.eraseKV (astep W op).1.jobs = (pstep (RVal.eraseKV W.jobs) op).1 ∧
+    (astep W op).2.erase = (pstep (RVal.eraseKV W.jobs) op).2 :=
+  alias_step W hW op hok
+
+/-! ### non-vacuity, and what happens without the hypotheses -/
+
+def outVal : AOut → Val
+  | .val r => r.erase
+  | _ => .str "<no value>"
+
+def jobRec (md : List (String × Val)) (out : Val) : Val :=
+  .dict [("status", .int 0), ("in", .none), ("out", out), ("metadata", .dict md),
+    ("intermediate", .dict [("budget", .list []), ("objective", .list [])])]
+
+/-- two jobs; `load_job("0.0")` (objects 10…14); the caller scribbles over the copy (`out`, `metadata["z"]`), stores the
+copy's metadata dict (object 11) as the metadata of job `0.1`, which is then extended through the storage; loads. -/
+def demoAlias : List AOp :=
+  [.newJob "0.0", .newJob "0.1", .loadJob "0.0",
+   .callerEdit 10 (.setKey "out" (.atom (.int 5))), .callerEdit 11 (.setKey "z" (.atom (.bool true))),
+   .storeJob "0.1" "metadata" (.dict 11 [("z", .atom (.bool true))]), .storeMeta "0.1" "k" (.atom (.int 7)),
+   .loadJob "0.0", .loadJob "0.1"]
+
+example : OkRun World.init demoAlias := by decide +kernel
+/-- job `0.0` is as it was created; job `0.1` has the handed-back dict plus the key stored afterwards -/
+example : List.all ((((arun World.init demoAlias).2.drop 7).map outVal).zip
+      [jobRec [] .none, jobRec [("z", .bool true), ("k", .int 7)] .none]) (fun p => Val.beq p.1 p.2) = true := by
+  decide +kernel
+/-- the load of `demoAlias` answers a dict (object 10): hypothesis `hload` of `C13_load_job_private` is satisfiable -/
+example : ((astep (arun World.init (demoAlias.take 2)).1 (.loadJob "0.0")).2 matches .val (.dict 10 _)) := by decide +kernel
+
+/-- **without the discipline** (the caller stores ONE dict as the metadata of two jobs — an in-process `MemoryStorage`
+keeps what it is given by reference): `store_job_metadata` on one of the jobs shows up in the other.  The model
+reproduces what the real object does; the property statement does not speak about copies on the store side. -/
+def demoShared : List AOp :=
+  [.newJob "0.0", .newJob "0.1", .storeJob "0.0" "metadata" (.dict 20 []), .storeJob "0.1" "metadata" (.dict 20 []),
+   .storeMeta "0.1" "k" (.atom (.int 1)), .loadJob "0.0"]
+
+example : ¬ OkRun World.init demoShared := by decide +kernel
+example : List.all (((arun World.init demoShared).2.drop 5).map outVal) (Val.beq (jobRec [("k", .int 1)] .none)) = true := by
+  decide +kernel
+
+/-- **C13 (a load that hands out an object the storage keeps breaks the property)** — `load_job` memoised (one deep copy
+kept and returned again until the job is written): (a) the caller writes `out = 5` into the dict it received and the next
+`load_job` answers `out = 5` although `None` is stored; (b) with storage calls only: the metadata dict loaded from job `0.0`
+is stored as the metadata of job `0.1`, `store_job_metadata("0.1", "k", 7)` then changes what `load_job("0.0")` answers.
+(With `copy.deepcopy` on every call both answers are the stored record: `demoAlias`.) -/
+theorem C13_memoised_load_witness :
+    (let M0 : MemoWorld := ⟨(arun World.init [.newJob "0.0", .newJob "0.1"]).1, []⟩
+     let M1 := (M0.loadJob "0.0").1                                       -- the copy: objects 10…14
+     let M2 := M1.editAll 10 (.setKey "out" (.atom (.int 5)))             -- the caller: loaded["out"] = 5
+     Val.beq (outVal (M2.loadJob "0.0").2) (jobRec [] (.int 5)) = true ∧
+     Val.beq (RVal.erase ((aget "0.0" M2.w.jobs).getD (.atom .none))) (jobRec [] .none) = true) ∧
+    (let M0 : MemoWorld := ⟨(arun World.init [.newJob "0.0", .newJob "0.1"]).1, []⟩
+     let M1 := (M0.loadJob "0.0").1
+     let W2 := (astep M1.w (.storeJob "0.1" "metadata" (.dict 11 []))).1  -- store_job("0.1", "metadata", loaded["metadata"])
+     let M2 : MemoWorld := ⟨W2, M1.memo⟩
+     let M3 := M2.editAll 11 (.setKey "k" (.atom (.int 7)))               -- store_job_metadata("0.1", "k", 7): in place
+     Val.beq (outVal (M3.loadJob "0.0").2) (jobRec [("k", .int 7)] .none) = true ∧
+     Val.beq (RVal.erase ((aget "0.0" M3.w.jobs).getD (.atom .none))) (jobRec [] .none) = true) := by
+  decide +kernel
+
 
 /-! ## non-vacuity -/
 
